@@ -245,10 +245,16 @@ class Ctx:
 
 
 def load_findings():
+    out = []
     p = os.path.join(VERIF, "known_findings.json")
-    if not os.path.exists(p):
-        return []
-    return json.load(open(p))["findings"]
+    if os.path.exists(p):
+        out += json.load(open(p))["findings"]
+    d = os.path.join(VERIF, "findings.d")   # per-family files while a family is being built; merged later
+    if os.path.isdir(d):
+        for f in sorted(os.listdir(d)):
+            if f.endswith(".json"):
+                out += json.load(open(os.path.join(d, f)))["findings"]
+    return out
 
 
 def finish(ctx):
